@@ -216,6 +216,40 @@ def standard_failures(binary, rows, units):
     return out
 
 
+def declaration_failures(binary, rows, units, reg):
+    """the prefix kinds a unit accepts are DECLARED on the unit (@metric_prefixes / @binary_prefixes; the
+    unit registry records them independently of the prefix parser): an identifier made of a prefix kind the
+    declaration does not allow must not be read as that unit"""
+    decl = {r["unit"]: (r["metric"], r["binary"]) for r in reg}
+    cands = []
+    for u in units:
+        d = decl.get(u["full"])
+        if d is None:
+            continue
+        for kind, allowed_decl, allowed_parser in (("metric", d[0], u["metric"]), ("binary", d[1], u["binary"])):
+            if allowed_parser and not allowed_decl:
+                for r in rows:
+                    if r["metric"] != (kind == "metric"):
+                        continue
+                    if u["along"]:
+                        cands.append((r["long"] + u["name"], u, r, kind))
+                    if u["ashort"]:
+                        cands.append((r["shorts"][0] + u["name"], u, r, kind))
+    if not cands:
+        return []
+    cands = cands[:40]
+    res = common.run_harness(binary, "prefix", ["R " + c[0].encode().hex() for c in cands], shards=1)
+    out = []
+    for (ident, u, r, kind), o in zip(cands, res):
+        if o != "-" and bytes.fromhex(o.split(":")[3]).decode() == u["full"]:
+            out.append({"kind": "combination the unit's declaration does not accept is read as that unit",
+                        "identifier": ident, "unit": u["full"],
+                        "declared": "no %s prefixes (unit registry metadata)" % kind, "resolved": o})
+            if len(out) >= 3:
+                break
+    return out
+
+
 def fmt_expected(e):
     return "-" if e is None else "%s:%d:%s:%s" % (e[0], e[1], e[2].encode().hex(), e[3].encode().hex())
 
@@ -275,6 +309,7 @@ def run(chk):
             failures.append({"kind": "combination the unit does not accept is read as that unit",
                              "identifier": s, "form": tag, "resolved": got})
     failures += standard_failures(binary, rows, units)
+    failures += declaration_failures(binary, rows, units, reg)
     # read-back of displayed forms (complete when the proof no longer checks)
     complete_readback = (not quick) or (not proved)
     disp_cases = []
